@@ -109,6 +109,10 @@ func checkC16(w *World) {
 					notEOF = false
 				}
 			}
+			// ... nor wrap it (errors.Is would still see io.EOF and the store would end the document normally)
+			if sliceContains(ret.Results[2], func(v ssa.Value) bool { return v == errV }) {
+				notEOF = false
+			}
 			if eof && open && notEOF {
 				found = true
 			}
@@ -330,6 +334,8 @@ func checkC16(w *World) {
 	w.check(P, "R16.3", "numbers are decoded to float64", pull.Pos(), !useNumber, fmt.Sprintf("Decoder.UseNumber is called: %v (then 1.0, 1e2, 1.50 keep their source spelling instead of the shortest numeral that reads back to the same double)", useNumber))
 	w.floor(P, "R16.3", 5)
 	w.checkJsonScheduling(P, pull)
+	// the store keeps every event of the stream: an empty string is still a text node
+	w.include(P, "C10", "R10.8")
 }
 
 func checkC17(w *World) {
@@ -637,6 +643,152 @@ func checkC17(w *World) {
 	})
 	w.check(P, "R17.3", "io.EOF only at a node without parent", pull.Pos(), eofGuard && eofReturns == eofGuarded, fmt.Sprintf("%d returns of io.EOF, %d of them under `current node has no parent` (an earlier EOF drops whatever follows, e.g. comments after </html>)", eofReturns, eofGuarded))
 	w.floor(P, "R17.3", 2)
+
+	// R17.4 traversal steps
+	docRule(P, "R17.4", "D", "steps of the pre-order walk: the cursor moves to FirstChild / NextSibling / Parent only under a non-nil test of that same link (except from the document node to its FirstChild and from the doctype to its NextSibling, which html.Parse guarantees); after emitting a node the NextSibling step is taken only when there is no FirstChild (children before siblings); the climb flag is set only when the link it replaces is nil; from the document node the walk starts at FirstChild. The node's text is handed on verbatim (TextNode/CommentNode Data, no re-decoding); the prefix-stripping helper strips at every ':' position including 0.")
+	type step struct {
+		st   *ssa.Store
+		link string
+	}
+	var steps []step
+	allInstrs(pull, func(in ssa.Instruction) {
+		st, ok := in.(*ssa.Store)
+		if !ok {
+			return
+		}
+		fa, ok := st.Addr.(*ssa.FieldAddr)
+		if !ok || fa.X != ssa.Value(pull.Params[0]) {
+			return
+		}
+		if _, isNodePtr := fa.Type().(*types.Pointer).Elem().(*types.Pointer); !isNodePtr {
+			return
+		}
+		ld, ok := st.Val.(*ssa.UnOp)
+		if !ok {
+			return
+		}
+		lfa, ok := ld.X.(*ssa.FieldAddr)
+		if !ok {
+			return
+		}
+		steps = append(steps, step{st, fieldName(lfa)})
+	})
+	linkTests := func(b *ssa.BasicBlock) map[string]bool { // link -> known non-nil (true) / nil (false)
+		out := map[string]bool{}
+		for _, a := range guardAtoms(b) {
+			bo, ok := a.V.(*ssa.BinOp)
+			if !ok || !isNilConst(bo.Y) {
+				continue
+			}
+			ld, ok := bo.X.(*ssa.UnOp)
+			if !ok {
+				continue
+			}
+			lfa, ok := ld.X.(*ssa.FieldAddr)
+			if !ok {
+				continue
+			}
+			nonNil := (bo.Op == token.NEQ) == a.Pol
+			out[fieldName(lfa)] = nonNil
+		}
+		return out
+	}
+	armOf := func(b *ssa.BasicBlock) string {
+		for name, ifi := range arms {
+			if ifi.Block().Succs[0] == b || ifi.Block().Succs[0].Dominates(b) {
+				return name
+			}
+		}
+		return ""
+	}
+	for _, s := range steps {
+		lt := linkTests(s.st.Block())
+		arm := armOf(s.st.Block())
+		nonNil, tested := lt[s.link]
+		ok := tested && nonNil
+		why := fmt.Sprintf("step to %s under a non-nil test of it: %v", s.link, ok)
+		switch {
+		case arm == "DocumentNode":
+			ok = s.link == "FirstChild"
+			why = "from the document node the walk goes to " + s.link + " (must be FirstChild: the doctype and anything before <html> come first)"
+		case arm == "DoctypeNode":
+			ok = s.link == "NextSibling"
+			why = "from the doctype the walk goes to " + s.link + " (must be NextSibling)"
+		case s.link == "NextSibling" && ok:
+			// either after a climb (Parent step in a dominating block) or when there is no first child
+			climbed := false
+			for _, s2 := range steps {
+				if s2.link == "Parent" && instrAfter(s2.st, s.st) {
+					climbed = true
+				}
+			}
+			fc, fcTested := lt["FirstChild"]
+			if !climbed && !(fcTested && !fc) {
+				ok = false
+				why = "the step to NextSibling after emitting a node is not conditional on FirstChild == nil: children would be skipped"
+			}
+		}
+		w.check(P, "R17.4", fmt.Sprintf("traversal step to %s (%s)", s.link, orElse(arm, "advance/climb")), s.st.Pos(), ok, why)
+	}
+	// verbatim text
+	for _, tn := range []string{"TextNode", "CommentNode"} {
+		ifi := arms[tn]
+		if ifi == nil {
+			continue
+		}
+		verb := false
+		for _, b := range armBlocks(ifi) {
+			for _, in := range b.Instrs {
+				ret, ok := in.(*ssa.Return)
+				if !ok || len(ret.Results) != 3 {
+					continue
+				}
+				mi, ok := ret.Results[0].(*ssa.MakeInterface)
+				if !ok {
+					continue
+				}
+				okv := true
+				nData := 0
+				backSlice(mi.X, func(v ssa.Value) bool {
+					if c, isCall := v.(*ssa.Call); isCall {
+						okv = false
+						_ = c
+					}
+					if ld, isLd := v.(*ssa.UnOp); isLd {
+						if lfa, isFA := ld.X.(*ssa.FieldAddr); isFA && fieldName(lfa) == "Data" {
+							nData++
+						}
+					}
+					return true
+				})
+				verb = okv && nData > 0
+			}
+		}
+		w.check(P, "R17.4", "html."+tn+" data is passed on verbatim", ifi.Pos(), verb, fmt.Sprintf("the node value is the DOM node's Data without further processing: %v (html.Parse has already decoded character references)", verb))
+	}
+	if strip != nil {
+		strict := ""
+		allInstrs(strip, func(in ssa.Instruction) {
+			bo, ok := in.(*ssa.BinOp)
+			if !ok {
+				return
+			}
+			c, ok := bo.X.(*ssa.Call)
+			if !ok || staticCallee(c) == nil || !strings.HasPrefix(funcFullName(staticCallee(c)), "strings.Index") {
+				return
+			}
+			k, isK := constInt(bo.Y)
+			if !isK {
+				return
+			}
+			good := (bo.Op == token.GEQ && k == 0) || (bo.Op == token.GTR && k == -1) || (bo.Op == token.NEQ && k == -1) || (bo.Op == token.LSS && k == 0) || (bo.Op == token.EQL && k == -1)
+			if !good {
+				strict = fmt.Sprintf("index %s %d", bo.Op, k)
+			}
+		})
+		w.check(P, "R17.4", "prefix stripping covers a colon at any position", strip.Pos(), strict == "", "comparison of the colon position: "+orElse(strict, "absent or inclusive of position 0"))
+	}
+	w.floor(P, "R17.4", 7)
 }
 
 func fieldName(fa *ssa.FieldAddr) string {
